@@ -121,7 +121,7 @@ def cond_code(cid, with_old, counter='v', active_name=None):
 def cond_code_fn(cid, with_old, counter='v'):
     """contract condition calling the harness function ``chk`` (fault injection by count)"""
     sr = ("(sent('e0'), sent('e1'), sent('e2'), received('e0'), received('e1'), "
-          "received('e2'))")
+          "received('e2'), received('e'), received('2'), received(''))")
     if with_old:
         old = OLD_EXPR[counter]
         return "chk(%d, %s if __old__ is not None else None, %s)" % (cid, old, sr)
